@@ -754,7 +754,39 @@ class Lowering:
     def s_NullStmt(self, n, fs):
         return [';']
 
+    def leftmost_stream(self, n):
+        """If n is a chain  S << a << b ...  return the qualified name of S (a global), else None."""
+        k = n
+        while k.get('kind') in ('ExprWithCleanups', 'ImplicitCastExpr', 'ParenExpr', 'MaterializeTemporaryExpr', 'CXXBindTemporaryExpr'):
+            k = kids(k)[0]
+        depth = 0
+        while k.get('kind') in ('CXXOperatorCallExpr', 'CXXMemberCallExpr') and depth < 64:
+            depth += 1
+            ks = kids(k)
+            if k.get('kind') == 'CXXOperatorCallExpr':
+                if len(ks) < 2:
+                    return None
+                k = ks[1]
+            else:
+                mem = ks[0]
+                if mem.get('kind') != 'MemberExpr':
+                    return None
+                k = kids(mem)[0]
+            while k.get('kind') in ('ImplicitCastExpr', 'ParenExpr'):
+                k = kids(k)[0]
+        if depth and k.get('kind') == 'DeclRefExpr' and k['referencedDecl'].get('kind') == 'VarDecl':
+            d = self.tu.node(k['referencedDecl']['id'])
+            if d is not None:
+                return self.tu.qual.get(d['id'])
+        return None
+
     def s_expr(self, n, fs):
+        st = self.leftmost_stream(n)
+        if st is not None and st in self.cfg.get('drop_streams', []):
+            ent = 'output to %s in %s' % (st, fs.cname)
+            if ent not in self.report['dropped']:
+                self.report['dropped'].append(ent)
+            return ['/* diagnostic written to %s dropped */' % st]
         ctx = Ctx(fs)
         e = self.expr(n, ctx, discard=True)
         out = list(ctx.pre)
